@@ -51,7 +51,9 @@ theorem age_consistent (cfg : Cfg) (tbl : Nat → Option ORes) (c : Cache) (now 
 theorem stored_lifetime (cfg : Cfg) (tbl : Nat → Option ORes) (c : Cache) (now : Int) (r : Req) (e : CEntry)
     (hin : e ∈ (handle cfg tbl c now r).2.1) (hnew : e ∉ c) :
     (e.expires = lifetimeEnd cfg e.o now ∧ e.timeWritten = now) ∨
-    (∃ e0 ∈ c, e0.o = e.o ∧ e0.timeWritten = e.timeWritten ∧ e.expires = now + cfg.defaultMaxAge) :=
+    (∃ e0 ∈ c, e0.o = e.o ∧ e0.timeWritten = e.timeWritten ∧ e.expires = now + cfg.defaultMaxAge) ∨
+    -- stored and, already expired on arrival, revalidated by the retry-without-Range of the same request
+    (cfg.retryInvalidRange = true ∧ e.timeWritten = now ∧ lifetimeEnd cfg e.o now < now ∧ e.expires = now + cfg.defaultMaxAge) :=
   Rv.Lemmas.FetchA.stored_lifetime cfg tbl c now r e hin hnew
 
 end Rv.Props.C03
